@@ -19,8 +19,8 @@ def init : Proc := {}
     world built (it gets the recycled id 0), a bare `nextWorldId()`, an explicitly numbered world -/
 def sampleInfo : CompId → CompInfo := fun _ => ⟨false, none, none, false, false⟩
 def sampleOps : List POp :=
-  [.newAuto true, .newAuto false, POp.ofW sampleInfo 0 (.create 0 [0] Shared.null), .drop 0, .newAuto true, .reserve,
-   .newExplicit 7 true, POp.ofW sampleInfo 2 (.create 0 [] Shared.null)]
+  [.newAuto true, .newAuto false, POp.ofW sampleInfo 0 (.create 0 [0] []), .drop 0, .newAuto true, .reserve,
+   .newExplicit 7 true, POp.ofW sampleInfo 2 (.create 0 [] [])]
 
 /-! ## 1. live worlds carry different ids -/
 
@@ -120,9 +120,10 @@ theorem id_after_churn (n : Nat) : ((init.run (churnOps 0 n)).nextWorldId).2 = 0
 theorem worlds_stamped (ops : List POp) (hid : IdPreserving ops) : ∀ e ∈ (init.run ops).worlds, e.wm.worldId = e.id :=
   run_stamped ops init (fun _ he => absurd he List.not_mem_nil) hid
 
-/-- every typed world operation is id-preserving, so histories built from them satisfy `IdPreserving` -/
-theorem world_ops_preserve_id (info : CompId → CompInfo) (w : WM) (op : WOp) : (w.applyOp info op).worldId = w.worldId :=
-  applyOp_wid info w op
+/-- every operation of the world model (`WM.step`, the function the single-world checks run against the library) is
+    id-preserving, so histories built from them satisfy `IdPreserving` -/
+theorem world_ops_preserve_id (info : CompId → CompInfo) (w : WM) (op : Op Handle) : (w.step info op).1.worldId = w.worldId :=
+  step_wid info w op
 
 /-- so is every per-world operation the executable model driver (`driver worlds`, the stream diffed against the real
     library) issues: whatever the op line, the bookkeeping and the world, `lineEffect` leaves `worldId` alone -/
@@ -133,7 +134,7 @@ theorem driver_ops_preserve_id (side : Mustache.Driver.World.St) (line : String)
 example : IdPreserving sampleOps := by
   intro s f hm w
   simp only [sampleOps, POp.ofW, List.mem_cons, reduceCtorEq, false_or, or_false, List.mem_nil_iff, POp.onWorld.injEq] at hm
-  rcases hm with ⟨_, rfl⟩ | ⟨_, rfl⟩ <;> exact applyOp_wid _ _ _
+  rcases hm with ⟨_, rfl⟩ | ⟨_, rfl⟩ <;> exact step_wid _ _ _
 
 /-- own handles: in every live automatically numbered world of an admissible history, an entity created outside a locked
     section gets a handle that (1) carries the world's id, which (2) is below 2^10, and (3) is valid in that world at
